@@ -888,6 +888,14 @@ func vfC29Generate(rt *rapid.T, c *vfCase) (vfC29Cfg, []byte, string) {
 	return cfg, stream, "frames=[" + strings.Join(parts, " ") + "]"
 }
 
+// vfC29IsKnown is vfC29Known without counting a hit.
+func vfC29IsKnown(c *vfCase, key string) bool {
+	if c != nil {
+		return c.IsKnown(key)
+	}
+	return vfC29Known(nil, key, "")
+}
+
 // vfC29Known reports whether key is listed as a known finding (c may be nil in the fuzz target).
 func vfC29Known(c *vfCase, key, example string) bool {
 	if key == "" {
@@ -935,7 +943,7 @@ func vfC29Check(c *vfCase, cfg vfC29Cfg, stream []byte) (string, *vfWSRefResult,
 		if curV.Msg == "" {
 			break
 		}
-		if curV.Key != "" {
+		if curV.Key != "" && vfC29IsKnown(c, curV.Key) {
 			keys = append(keys, curV.Key)
 			break
 		}
@@ -978,7 +986,9 @@ func vfC29Check(c *vfCase, cfg vfC29Cfg, stream []byte) (string, *vfWSRefResult,
 			cfgB := cur
 			cfgB.ReadLimit, cfgB.SmallBr = 0, false
 			_, _, vB := eval(cfgB)
-			if (vA.Msg == "" || vA.Key != "" || early) && (vB.Msg == "" || vB.Key != "") {
+			okA := vA.Msg == "" || (vA.Key != "" && vfC29IsKnown(c, vA.Key)) || early
+			okB := vB.Msg == "" || (vB.Key != "" && vfC29IsKnown(c, vB.Key))
+			if okA && okB {
 				keys = append(keys, vfC29KeyLimitSkip)
 				break
 			}
@@ -1000,6 +1010,8 @@ func vfC29Check(c *vfCase, cfg vfC29Cfg, stream []byte) (string, *vfWSRefResult,
 			return "", ref, v
 		}
 		v.Msg = "[" + strings.Join(keys, ",") + "] " + v.Msg
+	} else if v.Key != "" {
+		v.Msg = "[" + v.Key + "] " + v.Msg
 	}
 	return v.Msg, ref, v
 }
